@@ -58,6 +58,8 @@ PROBES = [0, 0.25, 1 / 3, 0.5, 0.75, 1, 1.25, 1.5, 2, 2.5, 3, -0.5, -1, 0.1, 4]
 
 def run(ctx):
     repo = ctx.repo
+    shared.mapping_order_in_equality_rule(ctx, 'C08.t')
+    shared.frozen_dataclass_eq_hash_rule(ctx, 'C08.u')
     ctx.decided += [
         'C08.a controlled() overrides that build a gate of another class pin (by a dominating equality test) every matrix-determining field they do not pass on',
         'C08.b _has_stabilizer_effect_ never answers True for an exponent at which the gate matrix is not Clifford (probe exponents, extracted eigen tables)',
